@@ -433,6 +433,23 @@ func runCapabilities(c *mc.Ctx, r *mc.Result) {
 			}
 		}
 	}
+	// flushing writers that can report an error: FlushError() alone, and next to the legacy Flush() (as net/http's
+	// writers offer both): the error-returning method is the one to call, and its error is returned
+	for _, fw := range []struct {
+		name string
+		w    interface {
+			http.ResponseWriter
+			Calls() []string
+		}
+	}{{"FlushError only", &capFlushErr{capBase{h: http.Header{}}}}, {"Flush and FlushError", &capFlushBoth{capBase{h: http.Header{}}}}} {
+		ctx := fox.NewTestContextOnly(fw.w, fx.Req("GET", "", "/"))
+		err := ctx.Writer().FlushError()
+		r.Evaluations++
+		r.DistinctNontrivial++
+		if calls := fw.w.Calls(); !errors.Is(err, errMarker) || len(calls) == 0 || calls[len(calls)-1] != "FlushError" {
+			r.Violate("capabilities", "not-delegated", fmt.Sprintf("FlushError on an underlying writer offering %s: calls %v, err=%v; want its FlushError called and its error returned", fw.name, fw.w.Calls(), err), "flush")
+		}
+	}
 	// helpers
 	// every status code with the short bodies (incl. 204 and 304: the helpers send what they are given, it is the
 	// underlying writer's business to refuse a body); the long body with every 37th code; and each helper again
@@ -557,6 +574,15 @@ func runCapabilities(c *mc.Ctx, r *mc.Result) {
 	}
 	r.Sample(map[string]any{"capability_mask": "10101", "calls": []string{"FlushError", "Push", "SetReadDeadline", "SetWriteDeadline", "EnableFullDuplex", "Hijack"}})
 }
+
+type capFlushErr struct{ capBase }
+
+func (w *capFlushErr) FlushError() error { w.log("FlushError"); return errMarker }
+
+type capFlushBoth struct{ capBase }
+
+func (w *capFlushBoth) Flush()            { w.log("Flush") }
+func (w *capFlushBoth) FlushError() error { w.log("FlushError"); return errMarker }
 
 func init() {
 	mc.Register(&mc.Check{
